@@ -192,7 +192,9 @@ def with_parameters(tp: AnyType) -> AnyType:
 
 
 def is_union_of(tp: AnyType, of: AnyType) -> bool:
-    return tp == of or (is_union(get_origin_or_type2(tp)) and of in get_args2(tp))
+    return no_annotated(tp) == of or (
+        is_union(get_origin_or_type2(tp)) and of in get_args2(tp)
+    )
 
 
 LIST_ORIGIN = typing_origin(list)
